@@ -14,6 +14,12 @@ package ipns
 //   ttl   0 | 1ns | 1h | max = 2^63-1 ns
 //   val   ipfsV1 = /ipfs/<cidv1> | ipfsV0sub = /ipfs/<cidv0>/a/b c.txt | ipns = /ipns/<libp2p-key cid>/x
 //   md    see c26Md
+//   sz    small = no padding (natural size, must be < MaxRecordSize-1) | otherwise the encoding is padded until
+//         len(MarshalRecord(rec)) is EXACTLY the target length the specification gives (MaxRecordSize-1, MaxRecordSize,
+//         MaxRecordSize+1, MaxRecordSize+1024); c26Build searches the padding (signature lengths of ECDSA/secp256k1
+//         vary from call to call, CBOR/protobuf length prefixes grow in steps)
+//   pad   mdString / mdBytes = one metadata entry "_pad" of that kind | value = a long last path segment of 'p's plus
+//         a "_pad" string of 0..20 bytes for the last few bytes (the value is stored twice in v1-compatible records)
 
 import (
 	"bytes"
@@ -23,6 +29,7 @@ import (
 	"fmt"
 	"math"
 	"sort"
+	"strings"
 	"sync"
 	"testing"
 	"time"
@@ -40,9 +47,14 @@ type c26Case struct {
 	V1  bool      `json:"v1"`
 	Emb string    `json:"emb"`
 	Val string    `json:"val"`
+	Sz  string    `json:"sz"`
+	Pad string    `json:"pad"`
 }
 type c26Exp struct {
 	Create       string      `json:"create"`
+	Target       int         `json:"target"`
+	Within       bool        `json:"within"`
+	Unmarshal    string      `json:"unmarshal"`
 	Errors       []string    `json:"errors"`
 	HasPk        bool        `json:"hasPk"`
 	Legacy       bool        `json:"legacy"`
@@ -179,8 +191,88 @@ func c26GenKey(kt string) *c26Key {
 	return &c26Key{sk: sk, pk: pk, name: NameFromPeer(pid), kb: kb}
 }
 
+// c26In are the concrete inputs of one case (after padding): value path and metadata map given to NewRecord.
+type c26In struct {
+	val string
+	md  map[string]any
+}
+
+// c26Build creates the record of case c with `bulk` bytes of padding at the place c.Pad names and a "_pad" string of
+// `fine` bytes when the bulk sits in the value.  The filler letter varies with `salt`: secp256k1 signatures are
+// deterministic (RFC 6979) and 70..72 bytes long, so a search that only moves between two lengths would cycle.
+func c26Build(c *c26Case, k *c26Key, eol time.Time, bulk, fine, salt int) (*Record, *c26In, error) {
+	fill := string(rune('a' + salt%26))
+	in := &c26In{val: c26Val[c.Val], md: c26Md(c.Md)}
+	if c.Pad != "none" && in.md == nil {
+		in.md = map[string]any{}
+	}
+	switch c.Pad {
+	case "mdString":
+		in.md["_pad"] = strings.Repeat(fill, bulk)
+	case "mdBytes":
+		in.md["_pad"] = bytes.Repeat([]byte{0xb5 + byte(salt)}, bulk)
+	case "value":
+		in.val += "/" + strings.Repeat(fill, bulk)
+		in.md["_pad"] = strings.Repeat("f", fine)
+	}
+	p, err := path.NewPath(in.val)
+	if err != nil {
+		return nil, nil, fmt.Errorf("harness: bad path: %w", err)
+	}
+	if p.String() != in.val {
+		return nil, nil, fmt.Errorf("harness: path not in normal form")
+	}
+	opts := []Option{WithV1Compatibility(c.V1)}
+	switch c.Emb {
+	case "yes":
+		opts = append(opts, WithPublicKey(true))
+	case "no":
+		opts = append(opts, WithPublicKey(false))
+	}
+	if in.md != nil {
+		opts = append(opts, WithMetadata(in.md))
+	}
+	rec, err := NewRecord(k.sk, p, c26Seq[c.Sc[0]], eol, c26Ttl[c.Sc[2]], opts...)
+	return rec, in, err
+}
+
+// c26BuildSized searches the padding that makes the encoding exactly target bytes long.
+func c26BuildSized(c *c26Case, k *c26Key, eol time.Time, target int) (*Record, *c26In, string) {
+	slope := 1
+	if c.Pad == "value" && c.V1 {
+		slope = 2 // the value is also stored in the legacy Value field
+	}
+	bulk, fine := target/2, 10
+	for try := 0; try < 200; try++ {
+		if bulk < 1 {
+			return nil, nil, "harness: padding search left the domain"
+		}
+		rec, in, err := c26Build(c, k, eol, bulk, fine, try)
+		if err != nil {
+			return nil, nil, "NewRecord (padded): " + err.Error()
+		}
+		wire, err := MarshalRecord(rec)
+		if err != nil {
+			return nil, nil, "MarshalRecord (padded): " + err.Error()
+		}
+		d := target - len(wire)
+		switch {
+		case d == 0:
+			return rec, in, ""
+		case c.Pad != "value":
+			bulk += d
+		case fine+d >= 0 && fine+d <= 20:
+			fine += d
+		default:
+			bulk += (d + fine - 10) / slope
+			fine = 10
+		}
+	}
+	return nil, nil, fmt.Sprintf("harness: no padding found for an encoding of exactly %d bytes", target)
+}
+
 // c26Accessors compares every accessor of rec with the expected observables; "" if all agree.
-func c26Accessors(rec *Record, k *c26Key, exp *c26Exp, eol time.Time) string {
+func c26Accessors(rec *Record, k *c26Key, exp *c26Exp, eol time.Time, in *c26In) string {
 	if s, err := rec.Sequence(); err != nil || s != c26Seq[exp.Seq] {
 		return fmt.Sprintf("Sequence()=%d,%v want %d", s, err, c26Seq[exp.Seq])
 	}
@@ -193,8 +285,8 @@ func c26Accessors(rec *Record, k *c26Key, exp *c26Exp, eol time.Time) string {
 	if vt, err := rec.ValidityType(); err != nil || vt != ValidityEOL {
 		return fmt.Sprintf("ValidityType()=%v,%v", vt, err)
 	}
-	if p, err := rec.Value(); err != nil || p.String() != c26Val[exp.Val] {
-		return fmt.Sprintf("Value()=%v,%v want %s", p, err, c26Val[exp.Val])
+	if p, err := rec.Value(); err != nil || p.String() != in.val {
+		return fmt.Sprintf("Value()=%.80v,%v want %.80s", p, err, in.val)
 	}
 	pk, err := rec.PubKey()
 	if exp.HasPk {
@@ -233,19 +325,19 @@ func c26Accessors(rec *Record, k *c26Key, exp *c26Exp, eol time.Time) string {
 		if err != nil {
 			return fmt.Sprintf("Metadata(%q): %v", key, err)
 		}
-		in := c26MdVal[key]
+		inv := in.md[key]
 		okv := false
 		switch kind {
 		case "string":
 			g, err := mv.AsString()
-			okv = err == nil && g == in.(string)
+			okv = err == nil && g == inv.(string)
 		case "bytes":
 			g, err := mv.AsBytes()
-			okv = err == nil && bytes.Equal(g, in.([]byte))
+			okv = err == nil && bytes.Equal(g, inv.([]byte))
 		case "int":
 			g, err := mv.AsInt()
 			var w int64
-			switch x := in.(type) {
+			switch x := inv.(type) {
 			case int64:
 				w = x
 			case int:
@@ -254,7 +346,7 @@ func c26Accessors(rec *Record, k *c26Key, exp *c26Exp, eol time.Time) string {
 			okv = err == nil && g == w
 		case "bool":
 			g, err := mv.AsBool()
-			okv = err == nil && g == in.(bool)
+			okv = err == nil && g == inv.(bool)
 		}
 		if !okv {
 			return fmt.Sprintf("metadata %q does not return the input value", key)
@@ -272,21 +364,15 @@ func c26Run(b *c26Beh, k *c26Key) string {
 	c, exp := &b.C, &b.Exp
 	now := time.Now()
 	eol := c26Eol(c.Sc[1], now)
-	p, err := path.NewPath(c26Val[c.Val])
-	if err != nil {
-		return "harness: bad path: " + err.Error()
+	if (c.Pad == "none") != (exp.Create == "reject" || exp.Target == 0) {
+		return "harness: padding class and target size disagree"
 	}
-	opts := []Option{WithV1Compatibility(c.V1)}
-	switch c.Emb {
-	case "yes":
-		opts = append(opts, WithPublicKey(true))
-	case "no":
-		opts = append(opts, WithPublicKey(false))
+	var rec *Record
+	var in *c26In
+	var err error
+	if c.Pad == "none" {
+		rec, in, err = c26Build(c, k, eol, 0, 0, 0)
 	}
-	if md := c26Md(c.Md); md != nil {
-		opts = append(opts, WithMetadata(md))
-	}
-	rec, err := NewRecord(k.sk, p, c26Seq[c.Sc[0]], eol, c26Ttl[c.Sc[2]], opts...)
 	if exp.Create == "reject" {
 		if err == nil {
 			return "NewRecord accepted metadata class " + c.Md
@@ -301,6 +387,12 @@ func c26Run(b *c26Beh, k *c26Key) string {
 	if err != nil {
 		return "NewRecord: " + err.Error()
 	}
+	if rec == nil {
+		var d string
+		if rec, in, d = c26BuildSized(c, k, eol, exp.Target); d != "" {
+			return d
+		}
+	}
 	if exp.Eol != c.Sc[1] || exp.Seq != c.Sc[0] || exp.Ttl != c.Sc[2] || exp.Val != c.Val {
 		// the specification demands identity; a different class would need a second projection
 		eol = c26Eol(exp.Eol, now)
@@ -309,31 +401,64 @@ func c26Run(b *c26Beh, k *c26Key) string {
 	if err != nil {
 		return "MarshalRecord: " + err.Error()
 	}
+	if exp.Target == 0 && len(wire) >= MaxRecordSize-1 {
+		return fmt.Sprintf("harness: unpadded record has %d bytes, not in the small class", len(wire))
+	}
+	if exp.Target != 0 && len(wire) != exp.Target {
+		return fmt.Sprintf("harness: encoding has %d bytes, want %d", len(wire), exp.Target)
+	}
+	sizeTag := fmt.Sprintf("encoding of %d bytes (MaxRecordSize%+d)", len(wire), len(wire)-MaxRecordSize)
+	rkey := string(k.name.RoutingKey())
+	if exp.Within != (exp.Unmarshal == "ok") {
+		return "harness: specification inconsistent (within / unmarshal)"
+	}
 	rec2, err := UnmarshalRecord(wire)
+	if !exp.Within {
+		// over the limit: every entry point that looks at the size refuses with ErrRecordSize; the record the creator
+		// holds still answers the accessors with the inputs
+		if !errors.Is(err, ErrRecordSize) {
+			return fmt.Sprintf("%s: UnmarshalRecord error=%v want ErrRecordSize", sizeTag, err)
+		}
+		if err := Validate(rec, k.pk); !errors.Is(err, ErrRecordSize) || exp.VKey {
+			return fmt.Sprintf("%s: Validate on the created record: %v want ErrRecordSize", sizeTag, err)
+		}
+		if err := ValidateWithName(rec, k.name); err == nil || exp.VName {
+			return sizeTag + ": ValidateWithName accepts the created record"
+		}
+		if err := (Validator{KeyBook: k.kb}).Validate(rkey, wire); !errors.Is(err, ErrRecordSize) || exp.VBook {
+			return fmt.Sprintf("%s: Validator{KeyBook}.Validate: %v want ErrRecordSize", sizeTag, err)
+		}
+		if err := (Validator{}).Validate(rkey, wire); !errors.Is(err, ErrRecordSize) {
+			return fmt.Sprintf("%s: Validator{}.Validate: %v want ErrRecordSize", sizeTag, err)
+		}
+		if d := c26Accessors(rec, k, exp, eol, in); d != "" {
+			return sizeTag + ": created record: " + d
+		}
+		return ""
+	}
 	if err != nil {
-		return "UnmarshalRecord: " + err.Error()
+		return fmt.Sprintf("UnmarshalRecord of an %s: %v", sizeTag, err)
 	}
 	wire2, err := MarshalRecord(rec2)
 	if err != nil || !bytes.Equal(wire, wire2) {
 		return "marshal(unmarshal(bytes)) differs from bytes"
 	}
-	rkey := string(k.name.RoutingKey())
 	for which, r := range map[string]*Record{"created": rec, "decoded": rec2} {
 		if got := Validate(r, k.pk) == nil; got != exp.VKey {
-			return fmt.Sprintf("%s record: Validate=%v want %v (%v)", which, got, exp.VKey, Validate(r, k.pk))
+			return fmt.Sprintf("%s record, %s: Validate=%v want %v (%v)", which, sizeTag, got, exp.VKey, Validate(r, k.pk))
 		}
 		if got := ValidateWithName(r, k.name) == nil; got != exp.VName {
-			return fmt.Sprintf("%s record: ValidateWithName=%v want %v (%v)", which, got, exp.VName, ValidateWithName(r, k.name))
+			return fmt.Sprintf("%s record, %s: ValidateWithName=%v want %v (%v)", which, sizeTag, got, exp.VName, ValidateWithName(r, k.name))
 		}
-		if d := c26Accessors(r, k, exp, eol); d != "" {
+		if d := c26Accessors(r, k, exp, eol, in); d != "" {
 			return which + " record: " + d
 		}
 	}
-	if got := (Validator{KeyBook: k.kb}).Validate(rkey, wire) == nil; got != exp.VBook {
-		return fmt.Sprintf("Validator{KeyBook}.Validate=%v want %v", got, exp.VBook)
+	if err := (Validator{KeyBook: k.kb}).Validate(rkey, wire); (err == nil) != exp.VBook {
+		return fmt.Sprintf("%s: Validator{KeyBook}.Validate=%v want %v", sizeTag, err, exp.VBook)
 	}
-	if got := (Validator{}).Validate(rkey, wire) == nil; got != exp.VName {
-		return fmt.Sprintf("Validator{}.Validate=%v want %v", got, exp.VName)
+	if err := (Validator{}).Validate(rkey, wire); (err == nil) != exp.VName {
+		return fmt.Sprintf("%s: Validator{}.Validate=%v want %v", sizeTag, err, exp.VName)
 	}
 	// legacy protobuf fields: all six present with the input values iff v1-compatible
 	pb := rec2.pb
@@ -344,7 +469,7 @@ func c26Run(b *c26Beh, k *c26Key) string {
 		}
 	}
 	if exp.Legacy {
-		if string(pb.GetValue()) != c26Val[exp.Val] || pb.GetSequence() != c26Seq[exp.Seq] || pb.GetTtl() != uint64(c26Ttl[exp.Ttl]) ||
+		if string(pb.GetValue()) != in.val || pb.GetSequence() != c26Seq[exp.Seq] || pb.GetTtl() != uint64(c26Ttl[exp.Ttl]) ||
 			string(pb.GetValidity()) != util.FormatRFC3339(eol) || pb.GetValidityType() != 0 {
 			return "legacy fields do not carry the inputs"
 		}
@@ -400,6 +525,9 @@ func TestVerifC26(t *testing.T) {
 				res := M{"i": jb.i, "ok": true}
 				if d != "" {
 					res = M{"i": jb.i, "ok": false, "step": 1, "what": d}
+				if strings.HasPrefix(d, "harness:") {
+					res["harness"] = true // the projection failed, not the code under test
+				}
 					if el := time.Since(t0); el > 60*time.Second {
 						// the "soon" expiry class allows 90 s for one case; a stalled machine is not a defect
 						res["harness"] = true
